@@ -324,12 +324,53 @@ pub fn check(case: &Case) -> CaseResult {
         let mut again: Histogram<OneObs, SortAndMerge> = Histogram::default();
         <Histogram<OneObs, SortAndMerge> as AggregateValue<_>>::insert(&mut again, c_sm);
         let o_again = closed_obs(&again.close())?;
-        // counts must be conserved and values reproduced (value = total/count may round)
+        // A closed histogram carries (total, occurrences) pairs; what a consumer reads as the
+        // reported value is total / occurrences, and re-aggregation starts from that quotient.
+        // v * n / n need not be v in binary floating point, so two buckets a few ulps apart may
+        // legitimately coincide after one more round (found by the thorough tier: 7 x
+        // 0.30000000000000004 and 1 x 0.3000000000000001). The comparison is therefore made where
+        // the property speaks: rank by rank over the reported values, counts exactly, values
+        // within 4 ulps.
+        let n_first: u128 = o_sm.iter().map(|o| o.1 as u128).sum();
+        let n_again: u128 = o_again.iter().map(|o| o.1 as u128).sum();
+        let same = n_first == n_again && {
+            let means = |o: &[(f64, u64)]| -> Vec<(f64, u64)> {
+                let mut v: Vec<(f64, u64)> =
+                    o.iter().filter(|x| x.1 > 0).map(|x| (x.0 / x.1 as f64, x.1)).collect();
+                v.sort_by(|a, b| a.0.partial_cmp(&b.0).unwrap());
+                v
+            };
+            let (a, b) = (means(&o_sm), means(&o_again));
+            let (mut i, mut j) = (0usize, 0usize);
+            let (mut ra, mut rb) = (a.first().map_or(0, |x| x.1), b.first().map_or(0, |x| x.1));
+            let mut ok = true;
+            while i < a.len() && j < b.len() {
+                let (x, y) = (a[i].0, b[j].0);
+                if (x - y).abs() > 4.0 * f64::EPSILON * x.abs().max(y.abs()) {
+                    ok = false;
+                    break;
+                }
+                let step = ra.min(rb);
+                ra -= step;
+                rb -= step;
+                if ra == 0 {
+                    i += 1;
+                    ra = a.get(i).map_or(0, |x| x.1);
+                }
+                if rb == 0 {
+                    j += 1;
+                    rb = b.get(j).map_or(0, |x| x.1);
+                }
+            }
+            ok && i == a.len() && j == b.len()
+        };
+        if o_again.len() != o_sm.len() {
+            classes.push("reaggregation-merged-buckets-within-rounding");
+        }
         vensure!(
-            o_again.len() == o_sm.len()
-                && o_again.iter().zip(&o_sm).all(|(a, b)| a.1 == b.1 && a.0.to_bits() == b.0.to_bits()),
+            same,
             "histogram:reaggregation-changes-output",
-            "re-aggregating a closed sort-and-merge histogram changed it:\n first ={o_sm:?}\n second={o_again:?}"
+            "re-aggregating a closed sort-and-merge histogram changed counts or reported values (total/occurrences, rank by rank, 4 ulps):\n first ={o_sm:?}\n second={o_again:?}"
         );
         classes.push("sort-and-merge-checked");
     }
